@@ -26,9 +26,10 @@ import NemoVerif.Lemmas.V1Follow
 import NemoVerif.Lemmas.V1Sub
 import NemoVerif.Lemmas.V1Multi
 import NemoVerif.Lemmas.V1Run
+import NemoVerif.Lemmas.V1Mut
 import NemoVerif.Generated.LlmFlowsV1
 namespace NemoVerif.C14
-open NemoVerif.V1Interp NemoVerif.V1Struct NemoVerif.V1Follow NemoVerif.V1Sub NemoVerif.V1Multi NemoVerif.V1Run NemoVerif.V1RunL
+open NemoVerif.V1Interp NemoVerif.V1Struct NemoVerif.V1Follow NemoVerif.V1Sub NemoVerif.V1Multi NemoVerif.V1Run NemoVerif.V1RunL NemoVerif.V1Mut
 
 /-- The compiler as the code has it (compile sub-blocks, then annotate every element of a loop body
     with `_next_on_break`/`_next_on_continue` unless an inner loop already did) computes the same
@@ -657,5 +658,42 @@ theorem gen_fuel_suffices (cfgs : Cfgs) (oracle : Oracle) (config : Ctx) :
 theorem generateEvents_none (cfgs : Cfgs) (oracle : Oracle) (config : Ctx) (events : List REvent)
     (h : generateEvents cfgs oracle config events = none) : ∃ ev' : List REvent, nextEvents cfgs oracle config ev' = none :=
   gen_fuel_suffices cfgs oracle config GEN_FUEL events [] (by simp) (by simp [GEN_FUEL]) h
+
+
+/-! ## Phase 4 (4): the decision is a function of the history alone — including the mutated config objects -/
+
+/-- **mutation_benign.**  `V1Mut.slideM` is `slide` WITH its side effect on the shared element dicts (it writes
+    `_active_label` into every element it passes while a `_label` seen earlier in the same slide is active) and
+    returns the mutated element list.  For every element list with arbitrary `_label`s and arbitrary left-over
+    `_active_label`s, every head, context and fuel:
+    (a) the mutating slide returns exactly what the pure `slide` of the interpreter model returns on the elements
+        proper — the left-over `_active_label`s of earlier calls are never read;
+    (b) the mutation changes neither an element proper nor a `_label`: the flow configs every other function of the
+        interpreter sees (`MCfg.view`) are the same before and after, hence `computeNextSteps` on ANY later history,
+        with the mutated config anywhere among ANY other flow configs, decides what it decides on the untouched ones;
+    (c) a later slide on the mutated element list returns what it returns on the original one. -/
+theorem mutation_benign (f : Nat) (m : MCfg) (st : SSt) (h prev : Int) (act : Option String) :
+    (slideM f m.elems st h prev act).1 = slide f (proj m.elems) st h prev ∧
+    (∀ (r : Bool) (before after : List MCfg) (H : List Event) (config : Ctx),
+      computeNextSteps r ((before ++ { m with elems := (slideM f m.elems st h prev act).2 } :: after).map MCfg.view) H config
+        = computeNextSteps r ((before ++ m :: after).map MCfg.view) H config) ∧
+    (∀ (f' : Nat) (st' : SSt) (h' prev' : Int) (act' : Option String),
+      (slideM f' (slideM f m.elems st h prev act).2 st' h' prev' act').1 = (slideM f' m.elems st' h' prev' act').1) := by
+  obtain ⟨h1, h2, _⟩ := slideM_spec f m.elems st h prev act
+  refine ⟨h1, ?_, ?_⟩
+  · intro r before after H config
+    have : MCfg.view { m with elems := (slideM f m.elems st h prev act).2 } = MCfg.view m := by
+      simp only [MCfg.view, h2]
+    simp only [List.map_append, List.map_cons, this]
+  · intro f' st' h' prev' act'
+    rw [(slideM_spec f' _ st' h' prev' act').1, (slideM_spec f' m.elems st' h' prev' act').1, h2]
+
+/-- non-vacuity (finite fact): a labelled `set` followed by a `bot` step — the slide marks both elements and the
+    elements proper stay what they were -/
+example :
+    let code : List MElem := [{ el := .setE "x" (.lit (.int 1)) 1, label := some "L" }, { el := .runAction "utter" (some "a") "" none }]
+    ((slideM 10 code ⟨[], []⟩ 0 0 none).2.map (·.activeLabel)) = [some "L", some "L"] ∧
+    proj (slideM 10 code ⟨[], []⟩ 0 0 none).2 = proj code := by
+  decide
 
 end NemoVerif.C14
